@@ -81,7 +81,10 @@ def run(chk, tier):
     chk.rule("R-PROG", "loop progress in the discovery code")
     nl = progloops.run(chk, P, ["topology-linux.c", "topology-x86.c", "pci-common.c", "components.c"])
     chk.floor("R-PROG", "in-scope loops", nl, 60)
-    chk.decided += ['heap path/line buffers are filled with their allocated size',
+    chk.decided += ['a value read from a sysfs/procfs file into an unset local is not used when the read failed; a pointer left NULL by a failed parser is not dereferenced',
+                    'the KNL memory-side cache obeys the filter of the type in use',
+                    'failing returns past a cleanup jump have released what the label releases',
+                    'heap path/line buffers are filled with their allocated size',
                     'the discovery code never uses a pointer after releasing it (a freed array handed on, a stale handle)',
                     "no filtered type is created at the covered creation sites (under every filter assignment)", "discovery cannot read the live machine when a snapshot root is set: raw file access only in the wrappers",
                     "holes left by missing files in node arrays are not dereferenced where the code elsewhere expects them", "path buffers are not overrun; loops make progress"]
